@@ -1,6 +1,6 @@
 """C11 - fitted models reproduce reported statistics; early stopping keeps the right round (DESIGN 3, C11)."""
 from ..facts import AnalysisBroken, walk
-from ..pp import pp, skip
+from ..pp import pp, skip, canon_text as CT
 from ..util import args, assignment, callee, is_call, literal_value, ref_decl, find_var, obj
 from .. import kalg, dtable
 from . import c11_stats
@@ -211,7 +211,7 @@ def rule_slots(F, R, rule="R-C11-5", with_evaluate=True):
     vars_ = {v["n"]: pp(v["c"][0]) for v in f.nodes() if v["k"] == "var" and v.get("c")}
     ld = [c for c in f.calls(lambda x: callee(x).endswith("load_stats"))]
     okl = len(ld) == 1 and pp(args(ld[0])[0]) == "m_values.tensor(trial, fold, isplit, ivalue)" and \
-        vars_.get("isplit") == "((split == nano::ml::split_type::train) ? 0 : 1)" and vars_.get("ivalue") == "((value == nano::ml::value_type::errors) ? 0 : 1)"
+        vars_.get("isplit") == CT("((split == nano::ml::split_type::train) ? 0 : 1)") and vars_.get("ivalue") == CT("((value == nano::ml::value_type::errors) ? 0 : 1)")
     R.check(okl, rule, "stats coordinates", f.loc(), "train/errors map to index 0, valid/losses to index 1 as in store()", "stats() reads %s with %s" % (pp(args(ld[0])[0]) if ld else None, vars_))
     if not with_evaluate:
         return
